@@ -109,6 +109,9 @@ def run(pid, repo, seed):
             skipped.append({'mutant': b['name'], 'why': r['why']})
             continue
         got = [g for g in r['violations'][pid] if (pid, g['rule'], g['key']) not in kset]
+        if b.get('undecided_ok'):
+            # a deliberately extreme restructuring the analysis is known not to follow: it may answer UNDECIDED, never VIOLATION
+            got = [g for g in got if g['verdict'] == 'violation']
         if got:
             noisy.append({'variant': b['name'], 'reported': got[:3]})
             lines.append('CHECKER-BROKEN property=%s benign variant %s raises %s' % (pid, b['name'], got[:3]))
